@@ -44,6 +44,7 @@ extern LedgerStats L;
 void ledger_reset_counters();             // zero counters (live set is kept)
 long ledger_live();
 void ledger_arm_fault(uint64_t kth, bool from_then_on);   // k counted from now (1 = next request); 0 disarms
+void ledger_arm_fault2(uint64_t k1, uint64_t k2);          // two refused requests (k1 < k2), counted from now
 bool ledger_fault_fired();
 bool ledger_is_live(const void* p);       // block currently owned by the library
 size_t ledger_block_size(const void* p);
